@@ -783,7 +783,7 @@ var c20Plans = [][]string{
 }
 
 func c20RandomConfig(rng *rand.Rand) c20Config {
-	cfg := c20Config{T0: uint64(1000 + rng.Intn(50))}
+	cfg := c20Config{T0: uint64(1000 + rng.Intn(50)), ExactHashLimit: rng.Intn(3) == 0}
 	cfg.Versions = []c20Version{{Genesis: 0, MDelta: 7200, Max: uint(2 + rng.Intn(3))}}
 	if rng.Intn(2) == 0 {
 		cfg.Versions = append(cfg.Versions, c20Version{Genesis: cfg.T0 + uint64(10+rng.Intn(80)), MDelta: uint(8 + rng.Intn(30)), Max: uint(2 + rng.Intn(3))})
